@@ -206,6 +206,16 @@ class Gather:
         return "%r[%r]" % (self.base, self.idx)
 
 
+class IdxV:
+    """Loop variable of ``for k in range(len(v))``: the position whose element is ``elem`` (``v[k]`` reads that element)."""
+
+    def __init__(self, vec, elem):
+        self.vec, self.elem = vec, elem
+
+    def __repr__(self):
+        return "IdxV(%r)" % (self.vec,)
+
+
 class BExp:
     """A boolean temporary: the (undecided) condition expression a local name was assigned."""
 
@@ -278,6 +288,22 @@ class State:
         return s
 
 
+class Clo:
+    """A function defined inside the function being interpreted (closure over the enclosing locals)."""
+
+    def __init__(self, fn):
+        self.fn = fn
+
+    def __eq__(self, o):
+        return isinstance(o, Clo) and o.fn is self.fn
+
+    def __hash__(self):
+        return hash(("Clo", id(self.fn)))
+
+    def __repr__(self):
+        return "Clo(%s)" % self.fn.name
+
+
 class Frame:
     """Static context of the function being interpreted."""
 
@@ -310,11 +336,11 @@ class Interp:
         self.derived = {}  # derived symbol name -> (kind, Lin a, Lin b): structure of floor/mod/product/abs/max symbols
 
     # ---------------------------------------------------------------- running
-    def run_function(self, frame, args, st=None):
+    def run_function(self, frame, args, st=None, base_env=None):
         """Interpret ``frame.func`` with positional/keyword values bound in ``args``
         (dict name -> value).  Returns list of (state, outcome) traces."""
         st = st or State()
-        st = State({}, st.facts, st.loops, st.atoms, st.heap)
+        st = State(dict(base_env or {}), st.facts, st.loops, st.atoms, st.heap)
         st.yields = []
         a = frame.func.args
         params = [p.arg for p in a.posonlyargs + a.args]
@@ -456,7 +482,7 @@ class Interp:
             return out
         if isinstance(node, (ast.FunctionDef, ast.ClassDef, ast.Import, ast.ImportFrom, ast.Global, ast.Nonlocal)):
             if isinstance(node, ast.FunctionDef):
-                st.env[node.name] = Opq("localfunc:" + node.name)
+                st.env[node.name] = Clo(node)
             return [(st, ("fall",))]
         if isinstance(node, ast.Delete):
             return [(st, ("fall",))]
@@ -519,6 +545,20 @@ class Interp:
             return results + [(s, ("fall",)) for s in cur]
         self.uid += 1
         tname = dotted(node.target) or "it"
+        index_of = None
+        ni = node.iter
+        if getattr(self, "index_loops", False) and isinstance(it, Rng) and isinstance(node.target, ast.Name) and isinstance(ni, ast.Call) \
+                and dotted(ni.func) == "range" \
+                and len(ni.args) == 1 and not ni.keywords and isinstance(ni.args[0], ast.Call) and dotted(ni.args[0].func) == "len" \
+                and len(ni.args[0].args) == 1:
+            seq = self.ev(ni.args[0].args[0], st, frame)
+            if isinstance(seq, (Vec, FHV)) and not any(
+                    isinstance(x, (ast.Assign, ast.AugAssign)) and any(isinstance(t, ast.Name) and t.id == node.target.id
+                                                                     for t in ast.walk(x) if isinstance(getattr(t, "ctx", None), ast.Store))
+                    for b in node.body for x in ast.walk(b)):
+                # an index loop over a vector: read as the loop over its elements, the counter standing for the position
+                index_of = seq
+                it = seq
         if isinstance(it, Rng):
             var = Lin.sym("%s#%d" % (tname, self.uid))
             elem = var
@@ -541,6 +581,8 @@ class Interp:
                 body_st.facts.add_cmp(var, "<=", Lin.sym(vec.base + "[-1]"), "element <= last of sorted vector")
                 body_st.facts.add_cmp(Lin.sym(vec.base + "[0]"), "<=", var, "first of sorted vector <= element")
         body_st.loops = list(st.loops) + [LoopCtx(var, it, node)]
+        if index_of is not None:
+            elem = IdxV(it if isinstance(it, Vec) else it.vec, elem)
         self.assign(node.target, elem, body_st, frame)
         after = st.copy()
         self._havoc(node.body, after)
@@ -609,6 +651,9 @@ class Interp:
             return None if d is None else (not d)
         if isinstance(test, ast.Name) and isinstance(st.env.get(test.id), BExp):
             return self.decide(st.env[test.id].node, st, frame)
+        pb = self._predicate_body(test, st, frame)
+        if pb is not None:
+            return self.decide(pb, st, frame)
         if isinstance(test, ast.Compare) and len(test.ops) > 1:
             # chained comparison a op1 b op2 c  ==  (a op1 b) and (b op2 c)
             parts = []
@@ -693,8 +738,44 @@ class Interp:
             return False
         return None
 
+    def _predicate_body(self, test, st, frame):
+        """``pred(a, b)`` where ``pred`` is a local closure (or a module-level helper) whose body is a single
+        ``return <expr>``: the expression with the parameters replaced by the argument expressions, else None."""
+        if not (isinstance(test, ast.Call) and isinstance(test.func, ast.Name) and not test.keywords):
+            return None
+        fn = None
+        v = st.env.get(test.func.id)
+        if isinstance(v, Clo):
+            fn = v.fn
+        elif test.func.id not in st.env:
+            sym = self.repo.resolve_dotted(frame.module, test.func.id)
+            if sym is not None and sym.kind == "func" and sym.module is frame.module:
+                fn = sym.target
+        if fn is None:
+            return None
+        body = [x for x in fn.body if not (isinstance(x, ast.Expr) and isinstance(x.value, ast.Constant))]
+        params = [a.arg for a in fn.args.args]
+        if len(body) != 1 or not isinstance(body[0], ast.Return) or body[0].value is None or len(params) != len(test.args) \
+                or fn.args.vararg or fn.args.kwarg or fn.args.kwonlyargs:
+            return None
+        if not isinstance(v, Clo):
+            # a module-level helper may only mention its parameters and globals
+            names = {n.id for n in ast.walk(body[0].value) if isinstance(n, ast.Name)}
+            if (names - set(params)) & set(st.env):
+                return None
+        sub = dict(zip(params, test.args))
+
+        class _S(ast.NodeTransformer):
+            def visit_Name(self, n):
+                return copy.deepcopy(sub[n.id]) if n.id in sub and isinstance(n.ctx, ast.Load) else n
+        import copy
+        return ast.fix_missing_locations(_S().visit(copy.deepcopy(body[0].value)))
+
     def assume(self, test, polarity, st, frame):
         """Add the integer facts implied by ``test`` being ``polarity``."""
+        pb = self._predicate_body(test, st, frame)
+        if pb is not None:
+            return self.assume(pb, polarity, st, frame)
         if isinstance(test, ast.UnaryOp) and isinstance(test.op, ast.Not):
             return self.assume(test.operand, not polarity, st, frame)
         if isinstance(test, ast.Name) and isinstance(st.env.get(test.id), BExp):
@@ -960,6 +1041,10 @@ class Interp:
             base_v = base.vec
         else:
             base_v = base
+        if isinstance(idx, IdxV):
+            if isinstance(base_v, Vec) and base_v.base == idx.vec.base and base_v.neg == idx.vec.neg:
+                return idx.elem - idx.vec.off + base_v.off if isinstance(idx.elem, Lin) else idx.elem
+            return Opq("elem", [base_v])
         if isinstance(base_v, Vec) and li is not None and li.is_const() and not base_v.neg:
             if li.const == -1:
                 return base_v.elem("last")
@@ -1153,6 +1238,10 @@ class Interp:
     def inline_call(self, e, fname, args, kwargs, st, frame):
         if frame.depth >= self.inline_depth:
             return NotImplemented
+        if isinstance(e.func, ast.Name) and isinstance(st.env.get(e.func.id), Clo):
+            # a local closure: its free variables are the enclosing function's locals at the time of the call
+            clo = st.env[e.func.id]
+            return self.inline_fn(frame.module, clo.fn, None, frame.defcls, True, args, kwargs, st, frame, outer=st.env)
         hit = self.resolve_callee(e, fname, st, frame)
         if hit is None:
             return NotImplemented
@@ -1163,7 +1252,7 @@ class Interp:
             return NotImplemented
         return self.inline_fn(module, fn, selfv, defcls, static, args, kwargs, st, frame)
 
-    def inline_fn(self, module, fn, selfv, defcls, static, args, kwargs, st, frame):
+    def inline_fn(self, module, fn, selfv, defcls, static, args, kwargs, st, frame, outer=None):
         """Interpret ``fn`` with the given actuals in the caller's state; returns its value
         (an ``Alt`` if traces disagree) and merges facts / heap of the normal traces into ``st``."""
         a = fn.args
@@ -1176,8 +1265,8 @@ class Interp:
             bound[p] = v
         for k, v in kwargs.items():
             bound[k] = v
-        sub = Frame(module, fn, selfv.cls if selfv is not None else None, defcls, frame.depth + 1)
-        traces, fst = self.run_function(sub, bound, st)
+        sub = Frame(module, fn, selfv.cls if selfv is not None else (frame.cls if outer is not None else None), defcls, frame.depth + 1)
+        traces, fst = self.run_function(sub, bound, st, base_env=outer)
         is_gen = any(isinstance(n, (ast.Yield, ast.YieldFrom)) for n in ast.walk(fn)
                      if not isinstance(n, ast.Lambda))
         if is_gen:
